@@ -223,6 +223,8 @@ def tlc(engine, module, cfg, workers=None, timeout=600, simulate=None, depth=Non
             res.violation = m.group(1)
         elif _RE_TEMP.search(out):
             res.violation = _RE_TEMP.search(out).group(1) or "temporal"
+        elif re.search(r"Error: Postcondition (\S+) .*is false", out):
+            res.violation = "postcondition:" + re.search(r"Error: Postcondition (\S+) ", out).group(1)
         elif "Error: Deadlock reached" in out:
             res.violation = "deadlock"
         elif "is violated" in out and "Error:" in out:
